@@ -596,6 +596,8 @@ impl<S: Storage> Builder<S> {
             )
             .expect("failed to spawn task");
 
+        #[cfg(risinglight_verif)]
+        crate::verif::event("spawn.spawned", &[]);
         StreamSubscriber {
             rx: rx.deactivate(),
             handle: Arc::new(AbortOnDropHandle(handle)),
